@@ -31,6 +31,14 @@ type c14Channel struct {
 	handlers []c14Handler
 	pushed   int // handler invocations (one buffered message each)
 	lost     []int
+
+	// the network layer's delivery routine of this member: messages are
+	// handed to the registered handlers one after the other, in arrival
+	// order; a handler that blocks (full machine buffer) holds up the ones
+	// behind it, exactly like the per-handler queue of the real channels
+	queue      []*c14Msg
+	running    bool
+	lastHanded int // id of the message handed over last (0: none yet)
 }
 
 func (c *c14Channel) Name() string { return "c14" }
@@ -45,25 +53,56 @@ func (c *c14Channel) Recv(ctx context.Context, handler func(m net.Message)) {
 func (c *c14Channel) SetUnmarshaler(unmarshaler func() net.TaggedUnmarshaler) {}
 func (c *c14Channel) SetFilter(filter net.BroadcastChannelFilter) error       { return nil }
 
-// deliver hands the message to every handler whose context is alive (that is
-// what the real channels do); a message nobody listens for is lost.
+// deliver: the message arrives at this member now. It is handed to every
+// handler whose context is alive at hand-over (that is what the real channels
+// do); a message nobody listens for is lost.
 func (c *c14Channel) deliver(m *c14Msg) {
 	c.mu.Lock()
-	var live []c14Handler
-	for _, h := range c.handlers {
-		if h.ctx.Err() == nil {
-			live = append(live, h)
+	c.queue = append(c.queue, m)
+	if !c.running {
+		c.running = true
+		go c.pump()
+	}
+	c.mu.Unlock()
+}
+
+func (c *c14Channel) pump() {
+	for {
+		c.mu.Lock()
+		if len(c.queue) == 0 {
+			c.running = false
+			c.mu.Unlock()
+			return
+		}
+		m := c.queue[0]
+		c.queue = c.queue[1:]
+		var live []c14Handler
+		for _, h := range c.handlers {
+			if h.ctx.Err() == nil {
+				live = append(live, h)
+			}
+		}
+		c.handlers = live
+		if len(live) == 0 {
+			c.lost = append(c.lost, m.id)
+		}
+		c.pushed += len(live)
+		if len(live) > 0 {
+			c.lastHanded = m.id
+		}
+		c.mu.Unlock()
+		for _, h := range live {
+			h.fn(m)
 		}
 	}
-	c.handlers = live
-	if len(live) == 0 {
-		c.lost = append(c.lost, m.id)
-	}
-	c.pushed += len(live)
-	c.mu.Unlock()
-	for _, h := range live {
-		h.fn(m)
-	}
+}
+
+// drained reports whether everything that arrived was handed over, and the
+// id of the message handed over last.
+func (c *c14Channel) drained() (bool, int) {
+	c.mu.Lock()
+	defer c.mu.Unlock()
+	return !c.running && len(c.queue) == 0, c.lastHanded
 }
 
 type c14Msg struct{ id int }
@@ -91,6 +130,9 @@ type c14Machine struct {
 	mu        sync.Mutex
 	cur       *c14State
 	acked     int
+	lastAcked int
+	expect    [][2]uint64 // (message id, height at which it arrived at this member)
+	unsettled int         // consecutive polls in which the last hand-over was not acknowledged
 	events    []string
 	done      bool
 	final     SyncState
@@ -139,6 +181,7 @@ func (s *c14State) Receive(msg net.Message) error {
 	m.mu.Lock()
 	m.receives[s.idx] = append(m.receives[s.idx], msg.Payload().(int))
 	m.acked++
+	m.lastAcked = msg.Payload().(int)
 	m.mu.Unlock()
 	return nil
 }
@@ -162,19 +205,31 @@ func (s *c14State) Next() (SyncState, error) {
 // inMainLoop: the machine's current state finished initiating and was not
 // left yet, i.e. the machine is (or is about to be) selecting on messages and
 // the end-of-state block.
-func (m *c14Machine) settled() bool {
+//
+// The machine's buffer is FIFO: once the message handed over last has been
+// received, every earlier one has been received or is gone for good. stuck
+// reports that the hand-overs are finished but the last one is still not
+// acknowledged (it may be waiting in the buffer - or it was discarded).
+func (m *c14Machine) settled() (ok bool, stuck bool) {
 	m.mu.Lock()
 	defer m.mu.Unlock()
 	if m.done {
-		return true
+		return true, false
 	}
 	if m.cur.phase == "initiated" {
-		m.ch.mu.Lock()
-		pushed := m.ch.pushed
-		m.ch.mu.Unlock()
-		return m.acked == pushed
+		idle, last := m.ch.drained()
+		if !idle {
+			m.unsettled = 0
+			return false, false
+		}
+		if last == 0 || m.lastAcked == last {
+			m.unsettled = 0
+			return true, false
+		}
+		m.unsettled++
+		return false, true
 	}
-	return true
+	return true, false
 }
 
 // ---- reference model ----------------------------------------------------------
@@ -297,6 +352,7 @@ func TestVerif_C14_Windows(t *testing.T) {
 		// buffered message and the end-of-state block is a documented race)
 		plan := map[uint64]int{}
 		msgDuringDelay, msgBeforeStart := false, false
+		bursts, burstOutsideLoop := 0, false
 		for h := h0; h < lastCall; h++ {
 			ok := true
 			for _, md := range models {
@@ -308,7 +364,21 @@ func TestVerif_C14_Windows(t *testing.T) {
 			if !ok {
 				continue
 			}
-			k := rapid.SampledFrom([]int{0, 0, 1, 1, 2, 3}).Draw(t, "messagesAtBlock")
+			k := rapid.SampledFrom([]int{0, 0, 0, 1, 1, 1, 2, 2, 3, 3, -1}).Draw(t, "messagesAtBlock")
+			if k < 0 {
+				// a burst larger than the machine's buffer (a big group, or
+				// several message types on one channel); capped per case
+				k = 0
+				if bursts < 2 {
+					bursts++
+					k = syncReceiveBuffer + rapid.IntRange(1, 40).Draw(t, "burstBeyondBuffer")
+					for _, md := range models {
+						if c := md.current(h); h < md.initRet[c] {
+							burstOutsideLoop = true
+						}
+					}
+				}
+			}
 			if k > 0 {
 				plan[h] = k
 				if h < start {
@@ -347,6 +417,8 @@ func TestVerif_C14_Windows(t *testing.T) {
 				m.mu.Unlock()
 			}()
 		}
+		nextID := 1
+		probes := 0
 		quiesce := func(what string) {
 			ok := verifkit.Eventually(c14Wait, func() bool {
 				doneCount := 0
@@ -360,12 +432,26 @@ func TestVerif_C14_Windows(t *testing.T) {
 				if p, _ := bc.Pending(); p+doneCount != len(machines) {
 					return false
 				}
+				all := true
 				for _, m := range machines {
-					if !m.settled() {
-						return false
+					ok, stuck := m.settled()
+					if !ok {
+						all = false
+					}
+					if stuck && m.unsettled%200 == 0 {
+						// the last hand-over stays unacknowledged: one more
+						// message for this member settles it - it queues up
+						// behind whatever is still buffered, and if it is
+						// received while earlier ones are not, those are lost
+						// (decided by the comparison at the end, not here)
+						probe := &c14Msg{id: nextID}
+						m.expect = append(m.expect, [2]uint64{uint64(nextID), bc.Height()})
+						nextID++
+						probes++
+						m.ch.deliver(probe)
 					}
 				}
-				return true
+				return all
 			})
 			if !ok {
 				fmt.Println("VERIF-INCONCLUSIVE: state machines did not settle " + what)
@@ -384,8 +470,6 @@ func TestVerif_C14_Windows(t *testing.T) {
 			return true
 		}
 		defer bc.AdvanceTo(lastCall + 64) // releases anything still waiting
-		nextID := 1
-		sentAt := map[int]uint64{}
 		var deliveries []string
 		for {
 			quiesce(fmt.Sprintf("at block %d", bc.Height()))
@@ -398,7 +482,9 @@ func TestVerif_C14_Windows(t *testing.T) {
 			}
 			for k := 0; k < plan[h]; k++ {
 				msg := &c14Msg{id: nextID}
-				sentAt[nextID] = h
+				for _, m := range machines {
+					m.expect = append(m.expect, [2]uint64{uint64(nextID), h})
+				}
 				nextID++
 				for _, m := range machines {
 					m.ch.deliver(msg)
@@ -448,8 +534,9 @@ func TestVerif_C14_Windows(t *testing.T) {
 			// messages: every delivered message is received exactly once, by
 			// the state that was current when it was delivered, in order
 			want := make([][]int, len(specs))
-			for id := 1; id < nextID; id++ {
-				c := md.current(sentAt[id])
+			for _, e := range m.expect {
+				id := int(e[0])
+				c := md.current(e[1])
 				want[c] = append(want[c], id)
 			}
 			if len(m.ch.lost) > 0 {
@@ -464,7 +551,8 @@ func TestVerif_C14_Windows(t *testing.T) {
 		}
 		nt := slowInit && msgDuringDelay
 		st.Case(nt, desc, fmt.Sprintf("slow-initiation:%v", slowInit), fmt.Sprintf("overrun:%v", overrun), fmt.Sprintf("msg-during-delay:%v", msgDuringDelay),
-			fmt.Sprintf("msg-before-start:%v", msgBeforeStart), fmt.Sprintf("members:%d", members), fmt.Sprintf("late-join:%v", h0 > start), fmt.Sprintf("messages:%v", nextID > 1))
+			fmt.Sprintf("msg-before-start:%v", msgBeforeStart), fmt.Sprintf("members:%d", members), fmt.Sprintf("late-join:%v", h0 > start), fmt.Sprintf("messages:%v", nextID > 1),
+			fmt.Sprintf("burst-beyond-buffer:%v", bursts > 0), fmt.Sprintf("extra-probes:%v", probes > 0), fmt.Sprintf("burst-while-not-receiving:%v", burstOutsideLoop))
 	})
 }
 
